@@ -46,6 +46,9 @@ fn fix_ident_conflicts(sig: &mut syn::Signature) -> ParamStatus {
         syn::FnArg::Typed(pat_type) => matches!(pat_type.pat.as_ref(), syn::Pat::Ident(_)),
     });
 
+    // A parameter the macro put in front (`__impl`) may have the name of one of the fn's own:
+    let mut seen_idents: HashSet<String> = HashSet::new();
+
     for fn_arg in sig.inputs.iter_mut() {
         let arg_status = match fn_arg {
             syn::FnArg::Receiver(_) => ParamStatus::Ok,
@@ -57,7 +60,9 @@ fn fix_ident_conflicts(sig: &mut syn::Signature) -> ParamStatus {
                     param_ident.mutability = None;
                     param_ident.subpat = None;
 
-                    if all_plain && param_ident.ident.unraw() == fn_ident_string {
+                    let repeated = !seen_idents.insert(param_ident.ident.unraw().to_string());
+
+                    if all_plain && (repeated || param_ident.ident.unraw() == fn_ident_string) {
                         // format_ident! copes with raw identifiers (`r#match` -> `match_`)
                         let mut new_ident = quote::format_ident!(
                             "{}_",
